@@ -271,6 +271,14 @@ def point_rows(prog, sh=None, thorough=False):
             C = C0 if first else curve()
             first = False
             regs = []
+            owner = {}          # register -> heap objects allocated while the point was built (the point, its coordinates, its scratch space)
+
+            def live():
+                return dict((oid, list(o.cells)) for oid, o in C.m.objs.items() if o.kind == "heap" and not o.freed)
+
+            def written(before, only=None):
+                return [C.m.objs[oid].name for oid, cells in before.items()
+                        if oid in C.m.objs and not C.m.objs[oid].freed and C.m.objs[oid].cells != cells and (only is None or oid in only)]
             for op in ops:
                 kind = op[0]
                 if kind in ("xy", "clone") and C.name == "Ed448" and not thorough:
@@ -278,11 +286,13 @@ def point_rows(prog, sh=None, thorough=False):
                 n += 1
                 try:
                     if kind == "new":
+                        ids0 = set(C.m.objs)
                         rc, q = C.point(op[1])
                         if rc != 0:
                             wrong.append("%s, %s: new_point refuses the curve point (%s.., %s..) with code %r" % (
                                 C.name, desc, hex(op[1][0])[:10], hex(op[1][1])[:10], rc))
                             break
+                        owner[len(regs)] = set(oid for oid in C.m.objs if oid not in ids0 and C.m.objs[oid].kind == "heap")
                         regs.append(q)
                     elif kind == "bad":
                         rc, q = C.point(op[1])
@@ -291,7 +301,13 @@ def point_rows(prog, sh=None, thorough=False):
                     elif kind == "dbl":
                         C.call("double", regs[op[1]])
                     elif kind == "add":
+                        before = live()
                         C.call("add", regs[op[1]], regs[op[2]])
+                        if op[1] != op[2]:
+                            w = written(before, owner.get(op[2], set()))
+                            if w:
+                                wrong.append("%s, %s: add(P, Q) writes into memory of its read-only operand Q (%s): a point shared between threads is corrupted by a reader" % (C.name, desc, w[0]))
+                                break
                     elif kind == "neg":
                         C.call("neg", regs[op[1]])
                     elif kind == "is":
@@ -299,8 +315,13 @@ def point_rows(prog, sh=None, thorough=False):
                         if rc != 0:
                             wrong.append("%s, %s: the expected point cannot be constructed (code %r)" % (C.name, desc, rc))
                             break
+                        before = live()
                         if C.call("cmp", regs[op[1]], e) != 0:
                             wrong.append("%s, %s: result differs from the group law (step %r)" % (C.name, desc, op[:2]))
+                            break
+                        w = written(before)
+                        if w:
+                            wrong.append("%s, %s: cmp(P, Q) writes into memory of the points it compares (%s): both are read-only arguments" % (C.name, desc, w[0]))
                             break
                     elif kind == "ne":
                         if C.call("cmp", regs[op[1]], regs[op[2]]) == 0:
@@ -310,8 +331,8 @@ def point_rows(prog, sh=None, thorough=False):
                         got = C.xy(regs[op[1]])
                         touched = [C.m.objs[oid].name for oid, cells in before.items()
                                    if oid in C.m.objs and not C.m.objs[oid].freed and C.m.objs[oid].cells != cells]
-                        if touched and C.name == "Ed25519":       # (Ed448 keeps scratch space inside the point object)
-                            wrong.append("%s, %s: get_xy modifies the point it reads (%s)" % (C.name, desc, touched[0]))
+                        if touched:
+                            wrong.append("%s, %s: get_xy writes into memory of the point it reads (%s): a point shared between threads is corrupted by a reader" % (C.name, desc, touched[0]))
                         if got != op[2]:
                             wrong.append("%s, %s: get_xy returns %s, expected (%s.., %s..)" % (
                                 C.name, desc, got if got[0] == "code" else "(%s.., %s..)" % (hex(got[0])[:10], hex(got[1])[:10]),
